@@ -862,6 +862,8 @@ def check_options(ctx):
             ctx.holds(rule, ginit, 'self.%s = %s' % (opt, opt), 'stored unchanged', ginit.node.lineno, clause='e')
         elif derived is not None:
             ctx.undecided(rule, ginit, stmt_text(derived), 'the %s option is stored in another form: cannot see that nothing is lost' % opt, derived.lineno, clause='e')
+        elif any(isinstance(x, ast.Name) and x.id == opt and isinstance(x.ctx, ast.Load) for x in ast.walk(ginit.node)):
+            ctx.undecided(rule, ginit, 'self.%s' % opt, 'the %s option is kept under another name / in another form: cannot see that nothing is lost' % opt, ginit.node.lineno, clause='e')
         else:
             ctx.violation(rule, ginit, 'self.%s' % opt, 'CodeGenerator does not store the %s option unchanged' % opt, ginit.node.lineno, clause='e')
     # annotate: the source map is kept only when annotate is on, otherwise {}
@@ -946,8 +948,14 @@ def check_options(ctx):
                     continue
                 seen.add(key)
                 st = 'install %s under [%s]' % (ev['attr'], flag if flag in gt else 'no own flag')
+                kind_ = 'unpack' if ev['attr'] == 'unpack_impl' else 'pack'
+                other_ = [g_ for g_ in gt if not g_.startswith('not ') and 'generate_for' not in g_ and
+                          (('unpack' in g_.lower()) if kind_ == 'unpack' else ('pack' in g_.lower().replace('unpack', '')))]
                 if flag in gt:
                     ctx.holds(rule, gc, st, 'installed only when its own option is on', ev['eff'].lineno, clause='e')
+                elif other_ and not any(isinstance(n_, ast.Assign) and canon(n_.targets[0]) == flag for n_ in ast.walk(ginit.node)):
+                    # the option is kept in another form (a flag set, a mode object) and tested through it
+                    ctx.undecided(rule, gc, 'install %s under [%s]' % (ev['attr'], other_[0][:60]), 'the option is kept in another form: cannot see that this test is the %s option' % kind_, ev['eff'].lineno, clause='e')
                 else:
                     ctx.violation(rule, gc, st, '%s is installed without its own generate_for_* option being on' % ev['attr'], ev['eff'].lineno, clause='e')
     # vectorize selects run vs singleton
